@@ -23,6 +23,9 @@ for t,mx in types:
         //@ loop 0
                 invariant bcd_fold(data@, iter.index@ as nat, {mx}) == Some(rv as nat),
         //@ end
+        open spec fn self_delimiting() -> bool {{ false }}
+        proof fn law_dec_bounds(b: Seq<u8>) {{}}
+        proof fn law_dec_frame(b: Seq<u8>, s: Seq<u8>) {{}}
         //@ tag enc.law_inverse.bcd.{t} C17 C01
         proof fn law_inverse(v: &{t}) {{
             lemma_bcd_rev_msb(*v as nat);
